@@ -201,6 +201,8 @@ func registerModelNatives(p *Program) {
 		"github.com/itchio/screw", "github.com/itchio/headway/state", "github.com/itchio/headway/counter",
 		"github.com/hashicorp/golang-lru/simplelru", "github.com/jgallagher/gosaca",
 		"github.com/itchio/wharf/zzverif/rt", "github.com/itchio/wharf/zzverif/model",
+		// the real gzip path (C13 H_gzip): pure Go once the arch-specific crc32 detection reads "no feature"
+		"compress/flate", "compress/gzip", "hash/crc32", "github.com/itchio/savior/gzipsource", "github.com/itchio/savior/flatesource", "github.com/itchio/kompress/flate", "github.com/itchio/kompress/gzip",
 	} {
 		p.initAllow[path] = true
 	}
